@@ -18,6 +18,12 @@ CHECKS = {
         note="Trusted: Lean kernel (standard axioms); the correspondence harness (structure + truth tables on enumerated formulas) is the only tie of the hand models to the code; legacy normalize is modelled with a fuel argument (preservation proved for every fuel; termination not proved).",
         design="DESIGN.md §5 C15",
     ),
+    "C12": dict(
+        technique="Lean 4 proof (order theory on every well-formed universe; shipped universes instantiated by kernel evaluation of extracted tables) + exhaustive 2^13 correspondence",
+        text="Closure (extensive, closed, least, idempotent, monotone, spelling-irrelevant, independent of set.pop order), required/implied partition and characterisation, closure(required)=group, topological names, lookup_order respecting required predecessors, union=lub and intersection=glb are proved in Lean 4 for every universe satisfying a decidable well-formedness check; every shipped universe (extracted from the live objects each run) is proved well-formed by decide +kernel. The hand model is compared with DimensionGroup exhaustively over all 8192 non-skypix subsets of the default universe, pairs of groups, skypix samples and older universes.",
+        note="Trusted: Lean kernel (standard axioms); the fact extractor for universes; correspondence harness. lookup_order being a permutation of elements (termination of its while loop) is validated exhaustively, not proved.",
+        design="DESIGN.md §5 C12",
+    ),
 }
 
 NOT_YET = {}
